@@ -7,7 +7,7 @@ Section Coherence.
 Variable c : cfg.
 Hypothesis Hwf : wf c.
 Variable es : Z.
-Hypothesis Hes : 0 < es.
+Hypothesis Hes : 0 <= es.
 
 Definition pool_coh (p : pool) : Prop := forall s m, slot p s = Some m -> Coh c es m.
 
@@ -50,12 +50,27 @@ Proof.
   rewrite Hd. destruct o; cbn [shape_of Shape_to_axis_shape_unchecked sh_nrows sh_ncols major minor]; repeat split; lia.
 Qed.
 
-Lemma transpose_coh (m m' : mat) : Coh c es m -> transpose c es m = Val m' -> Coh c es m'.
-Proof. intros HC E. destruct (transpose_logical c es m HC Hes) as (m2 & E2 & HC2 & _). congruence. Qed.
-Lemma switch_order_coh (m m' : mat) : Coh c es m -> switch_order c es m = Val m' -> Coh c es m'.
-Proof. intros HC E. destruct (switch_order_logical c es m HC Hes) as (m2 & E2 & HC2 & _). congruence. Qed.
-Lemma set_order_coh (m m' : mat) o : Coh c es m -> set_order c es m o = Val m' -> Coh c es m'.
-Proof. intros HC E. destruct (set_order_logical c es m o HC Hes) as (m2 & E2 & HC2 & _). congruence. Qed.
+(* zero-sized element types take the shortcut of transpose (the shape is swapped, the store untouched) *)
+Lemma transpose_coh {X} (m m' : matrix X) : Coh c es m -> transpose c es m = Val m' -> Coh c es m'.
+Proof.
+  intros HC E. destruct (Z.eq_dec es 0) as [Hz|Hnz].
+  - subst es. rewrite (transpose_zst c 0 m eq_refl) in E. injection E as <-.
+    destruct HC as (H1 & H2 & H3 & H4 & H5). unfold Coh, mmajor, mminor, size, AxisShape_transpose in *. cbn. repeat split; lia.
+  - destruct (transpose_logical c es m HC ltac:(lia)) as (m2 & E2 & HC2 & _). congruence.
+Qed.
+Lemma order_irrelevant_coh {X} (m : matrix X) o : Coh c es m -> Coh c es (mkMatrix o (m_shape m) (m_data m)).
+Proof. unfold Coh, mmajor, mminor, size. cbn. auto. Qed.
+Lemma switch_order_coh {X} (m m' : matrix X) : Coh c es m -> switch_order c es m = Val m' -> Coh c es m'.
+Proof.
+  intros HC E. unfold switch_order in E. destruct (transpose c es m) as [m1|w|w] eqn:E1; cbn [bind] in E; try discriminate.
+  injection E as <-. apply order_irrelevant_coh. exact (transpose_coh m m1 HC E1).
+Qed.
+Lemma set_order_coh {X} (m m' : matrix X) o : Coh c es m -> set_order c es m o = Val m' -> Coh c es m'.
+Proof.
+  intros HC E. unfold set_order in E. destruct (order_eqb o (m_order m)).
+  - injection E as <-. exact HC.
+  - exact (switch_order_coh m m' HC E).
+Qed.
 Lemma switch_order_wr_coh (m : mat) : Coh c es m -> Coh c es (switch_order_wr m).
 Proof. intros HC. destruct (switch_order_wr_spec c es m) as (_ & _ & _ & _ & H & _). auto. Qed.
 Lemma set_order_wr_coh (m : mat) o : Coh c es m -> Coh c es (set_order_wr m o).
@@ -121,27 +136,61 @@ Proof.
   { destruct HA as (A1 & A2 & _), HB as (B1 & B2 & _). unfold nrows, ncols, mmajor, mminor in *. destruct (m_order a), (m_order b); cbn; lia. }
   unfold Coh, nrows, ncols, mmajor, mminor in *. destruct (m_order p); cbn [AxisShape_nrows AxisShape_ncols] in *; repeat split; try lia; rewrite Hs; nia.
 Qed.
+Lemma map_res_len {X Y} (f : X -> res Y) : forall l ys, map_res f l = Val ys -> zlen ys = zlen l.
+Proof.
+  induction l as [|x l IH]; intros ys E; cbn [map_res] in E.
+  - now injection E as <-.
+  - destruct (f x) as [y|w|w]; cbn [bind] in E; try discriminate.
+    destruct (map_res f l) as [t|w|w]; cbn [bind] in E; try discriminate. injection E as <-.
+    specialize (IH t eq_refl). unfold zlen in *. cbn [length]. lia.
+Qed.
+Lemma map_res_in {X Y} (f : X -> res Y) : forall l ys y, map_res f l = Val ys -> In y ys -> exists x, In x l /\ f x = Val y.
+Proof.
+  induction l as [|x l IH]; intros ys y E Hin; cbn [map_res] in E.
+  - injection E as <-. contradiction.
+  - destruct (f x) as [y0|w|w] eqn:Ef; cbn [bind] in E; try discriminate.
+    destruct (map_res f l) as [t|w|w] eqn:Et; cbn [bind] in E; try discriminate. injection E as <-.
+    destruct Hin as [<-|Hin]; [exists x; split; [now left|exact Ef]|].
+    destruct (IH t y eq_refl Hin) as (x' & Hx & Hf). exists x'. split; [now right|exact Hf].
+Qed.
+(* a matrix assembled from nr vectors of nc cells each (rows of a row-major, columns of a column-major result) *)
+Lemma grid_len {Y} (cell : Z -> Z -> res Y) (n1 n2 : Z) (vs : list (list Y)) : 0 <= n1 -> 0 <= n2 ->
+  map_res (fun i => map_res (fun j => cell i j) (zseq n2)) (zseq n1) = Val vs -> zlen (concat vs) = n1 * n2.
+Proof.
+  intros H1 H2 E. pose proof (map_res_len _ _ _ E) as Hl. unfold zlen in Hl at 2. rewrite zseq_length in Hl.
+  destruct (znth_concat_uniform vs n2 H2) as [Lc _].
+  - intros r Hr. destruct (map_res_in _ _ _ _ E Hr) as (i & _ & Ei). pose proof (map_res_len _ _ _ Ei) as Hr2.
+    unfold zlen in Hr2 at 2. rewrite zseq_length in Hr2. lia.
+  - rewrite Lc. lia.
+Qed.
+
 Lemma mul_like_coh (a b p : mat) op : Coh c es a -> Coh c es b ->
-  (forall l r, exists u, op l r = Val u) ->
   multiplication_like_operation c es es es Dflt op a b = Val (Ok p) -> Coh c es p.
 Proof.
-  intros HA HB Hop E.
-  pose proof (multiplication_like_spec c Hwf es es es Hes Hes ltac:(lia) Dflt op a b HA HB ltac:(intros; apply Hop)) as H.
-  destruct (negb (ncols a =? nrows b)); [congruence|].
-  destruct (nrows a * ncols b >? umax c) eqn:E1; [congruence|]. destruct (es * (nrows a * ncols b) >? imax c) eqn:E2; [congruence|].
-  destruct H as (p2 & Ep & Ho & Hr & Hcl & Hs & _). assert (p2 = p) by congruence. subst p2.
-  apply (product_coh a b p); auto; lia.
+  intros HA HB E.
+  destruct (nrows_ncols_size c es a HA) as (_ & Ra & Ca). destruct (nrows_ncols_size c es b HB) as (_ & Rb & Cb).
+  assert (is_usize c (nrows a) /\ is_usize c (ncols b)) as [U1 U2].
+  { destruct HA as (A1 & A2 & _), HB as (B1 & B2 & _). unfold is_usize, nrows, ncols, mmajor, mminor in *. destruct (m_order a), (m_order b); cbn; lia. }
+  unfold multiplication_like_operation, mul_decision in E.
+  destruct (negb (is_mul_conformable a b)); cbn [bind] in E; [discriminate|].
+  rewrite (decide_shape_spec c Hwf es (m_order a) (nrows a) (ncols b) U1 U2 Hes) in E. cbn [bind] in E.
+  destruct (nrows a * ncols b >? umax c) eqn:E1; [discriminate|]. destruct (es * (nrows a * ncols b) >? imax c) eqn:E2; [discriminate|].
+  assert (forall d : list expr, zlen d = nrows a * ncols b ->
+            Coh c es (mkMatrix (m_order a) (Shape_to_axis_shape_unchecked (mkShape (nrows a) (ncols b)) (m_order a)) d)) as Hshape.
+  { intros d Hd. apply (shaped_coh (m_order a) (nrows a) (ncols b)); auto; lia. }
+  destruct (ncols a =? 0).
+  - injection E as <-. apply Hshape. unfold zlen, zrepeat. rewrite repeat_length. nia.
+  - destruct (set_order c es a RowMajor) as [a'|w|w]; cbn [bind] in E; try discriminate.
+    destruct (set_order c es b ColMajor) as [b'|w|w]; cbn [bind] in E; try discriminate.
+    destruct (m_order a); cbn [bind] in E.
+    + match type of E with context [bind (map_res ?F ?L) _] => destruct (map_res F L) as [rows|w|w] eqn:Er end; cbn [bind] in E; try discriminate.
+      injection E as <-. apply Hshape. exact (grid_len _ _ _ _ Ra Cb Er).
+    + match type of E with context [bind (map_res ?F ?L) _] => destruct (map_res F L) as [cols|w|w] eqn:Er end; cbn [bind] in E; try discriminate.
+      injection E as <-. apply Hshape. rewrite (grid_len (fun col row => _) _ _ _ Cb Ra Er). lia.
 Qed.
 Lemma multiply_coh (a b p : mat) : Coh c es a -> Coh c es b ->
   multiply c es es es Dflt (Bin 2) (Bin 0) a b = Val (Ok p) -> Coh c es p.
-Proof.
-  intros HA HB E.
-  pose proof (multiply_spec c Hwf es es es Hes Hes ltac:(lia) Dflt (Bin 2) (Bin 0) a b HA HB) as H.
-  destruct (negb (ncols a =? nrows b)); [congruence|].
-  destruct (nrows a * ncols b >? umax c) eqn:E1; [congruence|]. destruct (es * (nrows a * ncols b) >? imax c) eqn:E2; [congruence|].
-  destruct H as (p2 & Ep & Ho & Hr & Hcl & Hs & _). assert (p2 = p) by congruence. subst p2.
-  apply (product_coh a b p); auto; lia.
-Qed.
+Proof. intros HA HB E. exact (mul_like_coh a b p _ HA HB E). Qed.
 
 (* mutable iterators only replace elements in place *)
 Lemma single_mut_len {X} f (posof : X -> Z) show : forall script data items d' os,
@@ -209,9 +258,13 @@ Proof.
   apply (shaped_coh RowMajor r cl); auto; lia.
 Qed.
 
-(* rows handed to a conversion are vectors that exist: their number and lengths are usize values *)
+(* rows handed to a conversion are vectors that exist: their number and lengths are usize values, and all their elements
+   fit into one vector (for element types that occupy memory the last clause follows from the third; for zero-sized
+   ones it excludes inputs of more than usize::MAX elements in total, on which Vec::extend panics with
+   "capacity overflow" - a panic of std the model does not reproduce) *)
 Definition rows_ok (rows : list (list Z)) : Prop :=
-  zlen rows <= umax c /\ (forall r, In r rows -> zlen r <= umax c) /\ es * zlen (concat rows) <= imax c.
+  zlen rows <= umax c /\ (forall r, In r rows -> zlen r <= umax c) /\ es * zlen (concat rows) <= imax c /\
+  zlen (concat rows) <= umax c.
 
 Lemma uniform_concat_len {X} (rows : list (list X)) nc : uniform nc rows = true -> zlen (concat rows) = zlen rows * nc.
 Proof.
@@ -225,7 +278,7 @@ Qed.
 Lemma try_from_rows_coh (rows : list (list Z)) (m : mat) : rows_ok rows ->
   try_from_rows c es (map atoms rows) = Val (Ok m) -> Coh c es m.
 Proof.
-  intros (R1 & R2 & R3).
+  intros (R1 & R2 & R3 & R4).
   assert (zlen (map atoms rows) = zlen rows) as Ln by apply zlen_map.
   assert (first_len (map atoms rows) <= umax c) as Hf.
   { destruct rows as [|r0 t]; cbn [map first_len]; [destruct Hwf; lia|]. unfold atoms. rewrite zlen_map. apply R2. now left. }
@@ -244,7 +297,7 @@ Proof. unfold atoms. symmetry. apply concat_map. Qed.
 Lemma from_iter_coh (rows : list (list Z)) (m : mat) : rows_ok rows ->
   from_iter c (map atoms rows) = Val m -> Coh c es m.
 Proof.
-  intros (R1 & R2 & R3). rewrite from_iter_spec by (rewrite zlen_map; exact R1).
+  intros (R1 & R2 & R3 & R4). rewrite from_iter_spec by (rewrite zlen_map; exact R1).
   destruct rows as [|row rest]; cbn [map].
   - intros H. injection H as <-. apply new_coh.
   - destruct (uniform (zlen (atoms row)) (map atoms rest)) eqn:Eu; [|discriminate]. intros H. injection H as <-.
@@ -256,13 +309,12 @@ Proof.
     replace (zlen (map atoms (row :: rest))) with (zlen (row :: rest)) by (symmetry; apply zlen_map).
     change (atoms row ++ atoms (concat rest)) with (atoms (row ++ concat rest)) || idtac.
     apply (shaped_coh RowMajor (zlen (row :: rest)) nc); unfold is_usize; try lia.
-    + rewrite <- Hl. cbn [concat]. unfold atoms. rewrite !zlen_app2, !zlen_map. reflexivity.
-    + rewrite <- Hl. pose proof (zlen_nonneg (concat (row :: rest))). destruct Hwf. nia.
+    all: rewrite <- Hl; try (cbn [concat]; unfold atoms; rewrite !zlen_app2, !zlen_map; reflexivity); try lia.
 Qed.
 
-Lemma from_row_coh (l : list Z) : es * zlen l <= imax c -> Coh c es (from_row (atoms l)) /\ Coh c es (from_col (atoms l)).
+Lemma from_row_coh (l : list Z) : es * zlen l <= imax c /\ zlen l <= umax c -> Coh c es (from_row (atoms l)) /\ Coh c es (from_col (atoms l)).
 Proof.
-  intros H. pose proof (zlen_nonneg l). destruct Hwf as [W1 W2]. assert (zlen l <= imax c) by nia.
+  intros [H Hu]. pose proof (zlen_nonneg l). destruct Hwf as [W1 W2].
   unfold from_row, from_col, atoms. rewrite !zlen_map.
   split; [apply (shaped_coh RowMajor 1 (zlen l)) | apply (shaped_coh RowMajor (zlen l) 1)]; unfold is_usize; rewrite ?zlen_map; lia.
 Qed.
@@ -270,7 +322,7 @@ Qed.
 Lemma from_arrays_coh (nc : Z) (rows : list (list Z)) : rows_ok rows -> uniform nc (map atoms rows) = true -> 0 <= nc <= umax c ->
   Coh c es (from_arrays nc (map atoms rows)).
 Proof.
-  intros (R1 & R2 & R3) Hu Hnc. unfold from_arrays. pose proof (uniform_concat_len _ _ Hu) as Hl.
+  intros (R1 & R2 & R3 & R4) Hu Hnc. unfold from_arrays. pose proof (uniform_concat_len _ _ Hu) as Hl.
   rewrite concat_atoms in *. unfold atoms in Hl at 1. rewrite !zlen_map in *. pose proof (zlen_nonneg rows).
   apply (shaped_coh RowMajor (zlen rows) nc); unfold is_usize; try lia;
     try (unfold atoms; rewrite zlen_map; exact Hl);
@@ -281,7 +333,7 @@ Qed.
 Definition wf_op (o : op) : Prop :=
   match o with
   | WithDefault _ r cl | WithValue _ r cl _ | WithInit _ r cl _ | Reshape _ r cl | Resize _ r cl => is_usize c r /\ is_usize c cl
-  | FromRow _ l | FromCol _ l => es * zlen l <= imax c
+  | FromRow _ l | FromCol _ l => es * zlen l <= imax c /\ zlen l <= umax c      (* a vector that exists *)
   | FromArrays _ _ nc rows => rows_ok rows /\ uniform nc (map atoms rows) = true /\ 0 <= nc <= umax c
   | TryFromRows _ _ rows | FromIter _ rows => rows_ok rows
   | MacroOp _ _ _ _ _ => False          (* the macro arms expand to the constructors above; not part of this theorem *)
@@ -382,7 +434,7 @@ Proof.
     apply store_op_coh. { destruct ((form =? 0) || (form =? 1)), ((form =? 0) || (form =? 2)); auto using put_none_coh. }
     intros m' E'. eapply multiply_coh; [| |exact E']; assumption.
   - destruct (a =? b); [exact Hp|]. try (destruct (in_pool p d); [|exact Hp]). need_slot p a Hp. need_slot p b Hp. apply store_coh; auto using put_none_coh.
-    intros m' E'. eapply mul_like_coh; [| | |exact E']; try assumption. intros l r. eexists. reflexivity.
+    intros m' E'. eapply mul_like_coh; [| |exact E']; assumption.
   (* iterate *)
   - need_slot p s Hp; exact Hp.
   - need_slot p s Hp; exact Hp.
